@@ -274,6 +274,60 @@ def worker(job):
             part.stat('wf-twin:' + ('accept' if py else 'reject'))
             if py != (m == '1'):
                 part.violation('correspondence', f'imapresp.wf = {py}, Lean Grammar.wf = {m} on {o[:200]!r}', dict(level='L1', bytes=list(o[:400])), signature='wf-twins')
+    # structure twins: the Python envelope/body checkers against the Lean recognisers (isEnvelope / isBody, about which C07_envelope and
+    # C07_body are proved) on what the server really wrote, and on damaged copies of it
+    vals = []
+    for o in outputs:
+        if b'ENVELOPE' not in o and b'BODY' not in o:
+            continue
+        try:
+            for resp in imapresp.parse(o):
+                f = imapresp.fetch_items(resp)
+                if f:
+                    for name, v in f[1].items():
+                        if name == b'ENVELOPE':
+                            vals.append(('env', v))
+                        elif name in (b'BODYSTRUCTURE', b'BODY') and isinstance(v, list):
+                            vals.append(('body', v))
+        except (imapresp.Malformed, RecursionError):
+            pass
+    vals = r.sample(vals, min(len(vals), 150))
+
+    def damage(v):
+        import copy
+        v = copy.deepcopy(v)
+        # walk to a random list and drop / duplicate / replace one element
+        cur = v
+        for _ in range(r.randint(0, 3)):
+            subs = [x for x in cur if isinstance(x, list) and x]
+            if not subs:
+                break
+            cur = r.choice(subs)
+        if cur:
+            k = r.randrange(len(cur))
+            how = r.random()
+            if how < 0.4:
+                del cur[k]
+            elif how < 0.6:
+                cur.insert(k, cur[k])
+            elif how < 0.8:
+                cur[k] = imapresp.Tok('a', r.choice([b'NIL', b'5', b'x']))
+            else:
+                cur[k] = []
+        return v
+    vals = vals + [(w, damage(v)) for w, v in vals for _ in range(2)]
+    vals = [(w, v) for w, v in vals if len(imapresp.shape(v)) < 20000]
+    if vals:
+        res = batch([f'struct {w} {imapresp.shape(v)}' for w, v in vals])
+        for (w, v), mres in zip(vals, res):
+            try:
+                py = (imapresp.envelope_problem(v) if w == 'env' else imapresp.body_problem(v)) is None
+            except RecursionError:
+                continue
+            part.stat(f'structure-twin:{w}:' + ('accept' if py else 'reject'))
+            if mres not in ('0', '1') or py != (mres == '1'):
+                part.violation('correspondence', f'{w}: the Python checker says {"ok" if py else "not ok"}, Lean Structure.is{"Envelope" if w == "env" else "Body"} says {mres} on '
+                               f'{imapresp.shape(v)[:300]}', dict(level='L1', what=w, shape=imapresp.shape(v)[:2000]), signature='structure-twins')
     # String.build / quoted / literal vs the Wire model
     m = Model()
     try:
